@@ -194,7 +194,7 @@ func init() {
 		}()
 		return makeSys(j.s("c", ""), j)
 	}
-	for _, k := range []string{"iter", "snap", "c15", "json11", "json12", "pure", "race", "enum", "anysys", "rewound"} {
+	for _, k := range []string{"iter", "snap", "c15", "json11", "json12", "pure", "race", "enum", "anysys", "rewound", "largereaders"} {
 		sysForJob[k] = generic
 	}
 	sysForJob["kv"] = func(j Job) Sys { return kvSysFromJob(j) }
